@@ -20,6 +20,15 @@
    newline, an unterminated string / character constant): tail = [d, e].
    Edits carry tail = [d |-> 0, e |-> 0] (the ordinary rendering, one newline).
 
+   Redeclaration family (added after seeded change C13-5): one identifier declared
+   twice, as every ordered pair of kinds (harness KINDS: 1 enumerator, 2 typedef
+   name, 3 object, 4 object with initializer, 5 function declaration, 6 function
+   definition, 7 tag, 8 label, 9 parameter) in every scope arrangement sc:
+   1 both at file scope, 2 both in one block, 3 file scope then block, 4 parameter
+   then block, 5 block then nested block.  Labels exist in blocks only, parameter
+   only as the first of arrangement 4.  rd = [a, b, sc]; s = 0 (no seed).
+   Every other input carries rd = NoRd.
+
    One TLC state per edited input; every state emits its input (CSVWrite).  The
    quick tier takes the VERIF_SEED-selected 1/Stride (pairs: 1/PairStride) of
    this closed domain; the guard is evaluated before the edit is applied.      *)
@@ -63,12 +72,20 @@ Sel1(s, e) == (Ix(s, e) + Seed) % Stride = 0
 Sel2(s, e1, e2) == ((Ix(s, e1) % 1000003) * 31 + (Ix(s, e2) % 1000003) + Seed) % PairStride = 0
 
 NoTail == [d |-> 0, e |-> 0]
+NoRd == [a |-> 0, b |-> 0, sc |-> 0]
+FileKinds == 1..7
+BlockKinds == 1..8
+Redecls == {[s |-> 0, ed |-> <<>>, tail |-> NoTail, rd |-> r] :
+              r \in    [a : FileKinds, b : FileKinds, sc : {1}]
+                  \cup [a : BlockKinds, b : BlockKinds, sc : {2, 5}]
+                  \cup [a : FileKinds, b : BlockKinds, sc : {3}]
+                  \cup [a : {9}, b : BlockKinds, sc : {4}]}
 Sel3(s, d, e) == (s * 7919 + d * 104729 + e * 1299709 + Seed) % TailStride = 0
 
-Singles(L) == {x \in UNION {[s : {s}, ed : {<<e>> : e \in EditsOf(L[s], 1..NAlpha)}, tail : {NoTail}] : s \in 1..Len(L)} :
+Singles(L) == {x \in UNION {[s : {s}, ed : {<<e>> : e \in EditsOf(L[s], 1..NAlpha)}, tail : {NoTail}, rd : {NoRd}] : s \in 1..Len(L)} :
                  Sel1(x.s, x.ed[1])}
-Tails(L) == {x \in [s : 1..Len(L), ed : {<<>>}, tail : [d : 0..NDir, e : 1..NEnd]] : Sel3(x.s, x.tail.d, x.tail.e)}
-Pairs(L) == UNION {UNION {{[s |-> s, ed |-> <<e1, e2>>, tail |-> NoTail] :
+Tails(L) == {x \in [s : 1..Len(L), ed : {<<>>}, tail : [d : 0..NDir, e : 1..NEnd], rd : {NoRd}] : Sel3(x.s, x.tail.d, x.tail.e)}
+Pairs(L) == UNION {UNION {{[s |-> s, ed |-> <<e1, e2>>, tail |-> NoTail, rd |-> NoRd] :
                              e2 \in {e \in EditsOf(Len(Apply(Ident(L[s]), e1)), PairTok) : Sel2(s, e1, e)}} :
                           e1 \in EditsOf(L[s], PairTok)} :
                    s \in {z \in 1..Len(L) : L[z] <= PairMax}}
@@ -77,21 +94,27 @@ VARIABLES lens,        \* number of tokens of each seed (constant after Init)
           cur, done
 SeedLens == lens
 
-Result(x) == IF Len(x.ed) = 0 THEN Ident(SeedLens[x.s])
+Result(x) == IF x.s = 0 THEN <<>>
+             ELSE IF Len(x.ed) = 0 THEN Ident(SeedLens[x.s])
              ELSE IF Len(x.ed) = 1 THEN Apply(Ident(SeedLens[x.s]), x.ed[1])
              ELSE Apply(Apply(Ident(SeedLens[x.s]), x.ed[1]), x.ed[2])
 
 Init == /\ lens = SeedLensFromFile
-        /\ cur \in Singles(lens) \cup Pairs(lens) \cup Tails(lens)
+        /\ cur \in Singles(lens) \cup Pairs(lens) \cup Tails(lens) \cup Redecls
         /\ done = FALSE
 Next == /\ ~done /\ done' = TRUE /\ UNCHANGED <<cur, lens>>
-        /\ Emit => CSVWrite("%1$s", <<ToJson([s |-> cur.s, ed |-> cur.ed, tail |-> cur.tail, r |-> Result(cur)])>>, IOEnv.OUT)
+        /\ Emit => CSVWrite("%1$s", <<ToJson([s |-> cur.s, ed |-> cur.ed, tail |-> cur.tail, rd |-> cur.rd, r |-> Result(cur)])>>, IOEnv.OUT)
 Spec == Init /\ [][Next]_<<cur, done, lens>>
 
 (* what an edited input is: only seed tokens and alphabet tokens, length within the edit distance, and
    really different from the seed's own index sequence *)
 WellFormed ==
+  IF cur.s = 0
+  THEN cur.rd.sc \in 1..5 /\ cur.rd.b \in 1..8 /\ cur.rd.a \in 1..9
+       /\ (cur.rd.a = 9 <=> cur.rd.sc = 4) /\ (cur.rd.sc = 1 => cur.rd.a # 8 /\ cur.rd.b # 8)
+  ELSE
   LET n == SeedLens[cur.s]  r == Result(cur)  m == Len(cur.ed) IN
+  /\ cur.rd = NoRd
   /\ Len(r) \in (n - m)..(n + m)
   /\ \A j \in 1..Len(r) : r[j] \in 1..n \/ -r[j] \in 1..NAlpha
   /\ (m = 1 => r # Ident(n))
